@@ -1230,3 +1230,23 @@ variant('b-requester-sends-empty-payload', ['C01'], H + 'request_response_reques
         """        request = to_request_response_frame(self.stream_id,
                                             self._payload,""", """        request = to_request_response_frame(self.stream_id,
                                             Payload(self._payload.data),""", ('C01.b', 'RequestResponseRequester'))
+variant('b-rr-requester-setup-dropped', ['C09'], RB,
+        "        self.register_new_stream(requester).setup()\n        return requester.run()",
+        "        self.register_new_stream(requester)\n        return requester.run()",
+        ('C09.a', 'cancel callback registered'))
+variant('b-rr-requester-returns-wrapper-future', ['C09'], RB,
+        "        self.register_new_stream(requester).setup()\n        return requester.run()",
+        "        self.register_new_stream(requester).setup()\n        return asyncio.shield(requester.run())",
+        ('C09.a', 'cancel callback registered'))
+variant('b-rr-responder-setup-dropped', ['C01'], RB,
+        "        self._register_stream(stream_id, RequestResponseResponder(self, response_future)).setup()",
+        "        self._register_stream(stream_id, RequestResponseResponder(self, response_future))",
+        ('C01.d', 'response future wired'))
+variant('t-rr-requester-setup-separate-statement', ['C09'], RB,
+        "        self.register_new_stream(requester).setup()\n        return requester.run()",
+        "        self.register_new_stream(requester)\n        requester.setup()\n        future = requester.run()\n        return future",
+        kind='twin')
+variant('t-rr-responder-setup-separate-statement', ['C01'], RB,
+        "        self._register_stream(stream_id, RequestResponseResponder(self, response_future)).setup()",
+        "        responder = RequestResponseResponder(self, response_future)\n        self._register_stream(stream_id, responder)\n        responder.setup()",
+        kind='twin')
